@@ -178,7 +178,24 @@ def bare_index(fn, target, where):
     return hits[0]
 
 
+def alt_inherited(tree):
+    """ComplexModelMeta.__new__: for b in cls_bases: ... _type_info_alt.update(b._type_info_alt)"""
+    fn = find_function(tree, ['ComplexModelMeta', '__new__'])
+    if not any(isinstance(s, ast.Assign) and any(is_name(t, '_type_info_alt') for t in s.targets) for s in ast.walk(fn)):
+        raise TranslateError('ComplexModelMeta.__new__ does not create _type_info_alt')
+    for loop in ast.walk(fn):
+        if isinstance(loop, ast.For) and is_name(loop.iter, 'cls_bases') and isinstance(loop.target, ast.Name):
+            b = loop.target.id
+            for c in ast.walk(loop):
+                if isinstance(c, ast.Call) and attr_chain(c.func) == ['_type_info_alt', 'update'] and len(c.args) == 1 \
+                        and attr_chain(c.args[0]) == [b, '_type_info_alt']:
+                    return True
+    return False
+
+
 def generate(repo):
+    cm = parse(repo, 'spyne/model/complex.py')
+    alt_inh = alt_inherited(cm)
     xml = parse(repo, 'spyne/protocol/xml.py')
     soap = parse(repo, 'spyne/protocol/soap/soap11.py')
     const = parse(repo, 'spyne/const/__init__.py')
@@ -199,6 +216,8 @@ def generate(repo):
            '(* complex_from_element: n = number of occurrences seen *)',
            'Definition xw_read_multi (mo : ext) : bool := %s.' % multi,
            'Definition xw_freq_bad (n mn : Z) (mo : ext) : bool := %s.' % freq, '',
+           '(* ComplexModelMeta.__new__: a class starts from the _type_info_alt tables of its bases *)',
+           'Definition xw_alt_inherited : bool := %s.' % ('true' if alt_inh else 'false'), '',
            '(* serialize, non-wrapped body styles: which item of ctx.out_object is written *)',
            '(* None: the whole ctx.out_object sequence is handed to to_parent *)',
            'Definition xw_xml_bare_index : option Z := %s.' % ('None' if xi is None else '(Some %d)' % xi),
